@@ -239,10 +239,12 @@ def c10(res, tier, deadline):
     res.assumptions = COMMON_ASSUMPTIONS + [
         "an id can be the dynamic id of an object only if some class record registered it (as with type_info objects)"]
     base = ("n=1-4,k=2,d=3,shapes=RR;n=1-5,k=1,d=3,shapes=R;n=1-3,k=3,d=2,shapes=RRR;"
-            "n=1-4,k=2,d=2,shapes=RR,pres=direct;n=1-4,k=1,d=2,shapes=R,pres=direct|noself")
+            "n=1-4,k=2,d=2,shapes=RR,pres=direct;n=1-4,k=1,d=2,shapes=R,pres=direct|noself;"
+            "n=1-4,k=1,d=2,shapes=P|S|C|V|W|X|NR;n=1-3,k=2,d=2,shapes=VV|RV|PP|RNR,pres=full|split")
     big = ("n=1-5,k=2,d=3,shapes=RR;n=1-6,k=1,d=3,shapes=R;n=1-4,k=3,d=2,shapes=RRR;"
            "n=1-5,k=2,d=2,shapes=RR,pres=direct;n=1-5,k=1,d=2,shapes=R,pres=direct|noself;"
-           "n=1-3,k=4,d=2,shapes=RRRR")
+           "n=1-3,k=4,d=2,shapes=RRRR;"
+           "n=1-5,k=1,d=2,shapes=P|S|C|V|W|X|NR;n=1-4,k=2,d=2,shapes=VV|RV|PP|RNR|WV|XX,pres=full|split")
     space = base if tier == "quick" else big
     runs = [Run(tag, "dispatch", space, "C01,C03", extra="reupdate=1", dump_mod=1999)
             for tag in ("rel", "int", "prj", "prn", "dfr", "dfh")]
